@@ -585,6 +585,12 @@ func (c *Compiler) structCode(typ *runtime.Type, isPtr bool) (*StructCode, error
 		}
 		if field.isAnonymous {
 			structCode := field.getAnonymousStruct()
+			if structCode != nil && structCode.isRecursive {
+				// an embedded struct type that is being compiled further out (T embeds *T, A
+				// embeds *B and B embeds *A): encoding/json promotes the members of a type only
+				// where it meets the type first; the inner occurrence adds nothing
+				continue
+			}
 			if structCode != nil {
 				structCode.removeFieldsByTags(tags)
 				if c.isAssignableIndirect(field, isPtr) {
